@@ -13,7 +13,7 @@ import threading
 import circuits.core.pollers as pollers_mod
 import circuits.io.file as file_mod
 from circuits.core.components import BaseComponent
-from circuits.core.events import generate_events
+from circuits.core.events import Event, generate_events
 from circuits.core.handlers import handler
 from circuits.io.file import File
 from circuits.net.events import close, write
@@ -26,7 +26,7 @@ PROPERTY = 'C11'
 LEVEL = 'fault_enumeration'
 RULE = ('program = endpoint {server connection, UNIX client, TCP client, File} x poller x 1-3 write events with payloads of 0, 1, 3 '
         'distinct bytes x position of a close request (none / after write i; issued once or twice) x delivery mode (all events at once / one per loop '
-        'iteration); environment = outcome of every send()/os.write(): accept all | 1 byte | n-1 bytes | EAGAIN | EINTR | ENOBUFS | '
+        'iteration) x optionally a hang-up reported by the poller after 0-2 iterations; environment = outcome of every send()/os.write(): accept all | 1 byte | n-1 bytes | EAGAIN | EINTR | ENOBUFS | '
         'EPIPE | ECONNRESET with <= k non-default answers; non-trivial = execution with at least one non-default answer that '
         'exercised a requeue / deferred close / fatal path; distinct = distinct (program, answer script)')
 ASSUMPTIONS = [
@@ -240,6 +240,8 @@ class World:
 
 def execute(program, prefix):
     endpoint, pname, payloads, close_after, mode = program
+    mode, _, hang = mode.partition('@')  # '@k': after k loop iterations the poller reports the descriptor hung up (peer reset)
+    hang = int(hang) if hang else None
     twice = mode.endswith('2')      # the close request is issued twice (two handlers both ask, close() then a shutdown, ...)
     mode = mode.rstrip('2')
     w = World(program, prefix)
@@ -263,6 +265,11 @@ def execute(program, prefix):
         for it in range(60):
             if mode == 'spread' and evs:
                 w.root.fire(evs.pop(0), 'ep')
+            if hang is not None and it == hang and w.closed_at is None:
+                # the peer is gone: from now on the OS refuses every write, and the poller says so
+                w.fatal = errno.ECONNRESET
+                w.paths.add('hangup')
+                w.root.fire(Event.create('_disconnect', w.sock), 'ep')
             before = (w.sends, len(w.events), len(w.accepted))
             w.iteration()
             if before == (w.sends, len(w.events), len(w.accepted)) and not evs:
@@ -298,6 +305,10 @@ def execute(program, prefix):
             if held:
                 w.bad.append(('residue-after-close', 'the closed endpoint still holds %d byte(s) queued for writing (they would be written '
                               'on its next connection)' % held))
+            pending_close = (w.sock in getattr(w.comp, '_closeq', ())) if endpoint.startswith('server') else bool(getattr(w.comp, '_closeflag', False))
+            if pending_close and not endpoint.startswith('server'):
+                w.bad.append(('close-request-after-close', 'the closed endpoint still holds a pending close request (its next connection '
+                              'would be closed unasked as soon as its buffer drains)'))
         if w.fatal is not None:
             if not any(e in ('error', 'disconnect', 'disconnected', 'closed') for e in w.events):
                 w.bad.append(('fatal-unsignalled', 'send failed with %s but no error/disconnect event was fired (events %r)'
@@ -340,6 +351,13 @@ def programs(tier):
                 for ca in range(1, len(pl) + 1):
                     for mode in ('burst2', 'spread2'):
                         yield (ep, pn, pl, ca, mode), k
+    # the peer goes away (hang-up reported by the poller) while a close request is waiting behind buffered data
+    for ep in endpoints:
+        for pn in pollers:
+            for pl in ((b'ABC',), (b'A', b'BCD')):
+                for ca in (None, len(pl)):
+                    for hang in (0, 1, 2):
+                        yield (ep, pn, pl, ca, 'burst@%d' % hang), k
     # the whole server is closed (close event without a socket) while a connection still has data buffered
     for pn in pollers:
         for pl in payload_lists(maxn):
